@@ -755,6 +755,12 @@ func (g *Gen) alloc(x *ssa.Alloc) Val {
 	elem := x.Type().Underlying().(*types.Pointer).Elem()
 	switch et := elem.Underlying().(type) {
 	case *types.Struct:
+		if g.isCellAlloc(x) {
+			// a local struct whose address never escapes: held as one value (no heap fields)
+			name := g.cellName(x)
+			g.cur.store[name] = g.zero(elem)
+			return Val{T: x.Type(), S: "1", Addr: &Addr{Kind: "cell", Heap: name, ElemT: elem}}
+		}
 		r := g.allocRef(g.cur)
 		g.storeStruct(g.cur, elem, r, g.zero(elem))
 		// ghost fields declared "zero:<type>" start at zero for a newly allocated object of that type
@@ -780,6 +786,49 @@ func (g *Gen) alloc(x *ssa.Alloc) Val {
 	g.heapDecl(name, g.sortOf(elem))
 	g.cur.store[name] = g.zero(elem)
 	return Val{T: x.Type(), S: "1", Addr: &Addr{Kind: "cell", Heap: name, ElemT: elem}}
+}
+
+// isCellAlloc: a struct allocation that is only read/written through field addresses and whole
+// loads/stores (its address is never passed, stored or merged) can be modelled as a single value.
+func (g *Gen) isCellAlloc(a *ssa.Alloc) bool {
+	if v, ok := g.cellAllocs[a]; ok {
+		return v
+	}
+	if g.cellAllocs == nil {
+		g.cellAllocs = map[*ssa.Alloc]bool{}
+	}
+	elem := a.Type().Underlying().(*types.Pointer).Elem()
+	_, isStruct := elem.Underlying().(*types.Struct)
+	var ok func(v ssa.Value) bool
+	ok = func(v ssa.Value) bool {
+		refs := v.Referrers()
+		if refs == nil {
+			return false
+		}
+		for _, r := range *refs {
+			switch x := r.(type) {
+			case *ssa.DebugRef:
+			case *ssa.UnOp:
+				if x.Op != token.MUL {
+					return false
+				}
+			case *ssa.Store:
+				if x.Val == v {
+					return false
+				}
+			case *ssa.FieldAddr:
+				if !ok(x) {
+					return false
+				}
+			default:
+				return false
+			}
+		}
+		return true
+	}
+	res := isStruct && ok(a)
+	g.cellAllocs[a] = res
+	return res
 }
 
 func (g *Gen) fieldAddr(x *ssa.FieldAddr) Val {
